@@ -3,8 +3,10 @@
 pub mod api;
 #[macro_use]
 pub mod engine;
+pub mod forge;
 pub mod fuzzdec;
 pub mod gen;
+pub mod hard_inverse;
 pub mod pinned;
 pub mod props;
 pub mod r1cs_lang;
